@@ -171,6 +171,16 @@ fn leaper(sq: u8, steps: &[(i32, i32)]) -> u64 {
 const KNIGHT: [(i32, i32); 8] = [(1, 2), (2, 1), (2, -1), (1, -2), (-1, -2), (-2, -1), (-2, 1), (-1, 2)];
 const KING: [(i32, i32); 8] = [(1, 0), (1, 1), (0, 1), (-1, 1), (-1, 0), (-1, -1), (0, -1), (1, -1)];
 
+thread_local! {
+    /// every worker thread builds its own tables with the real initialiser (a table type that is
+    /// not shareable between threads must not stop this check from building)
+    static TL_LK: &'static LookupTable = Box::leak(Box::new(LookupTable::init()));
+}
+
+fn tl_lk() -> &'static LookupTable {
+    TL_LK.with(|l| *l)
+}
+
 pub fn run(tier: &str, seed: u64, out: &str) {
     let rep = Report::new("C10", tier, seed);
     let lk = match guard(LookupTable::init) {
@@ -200,8 +210,8 @@ pub fn run(tier: &str, seed: u64, out: &str) {
                 let on = spread(idx, rays);
                 distinct += 1;
                 for fill in [0u64, off, off & checker, 1u64 << sq] {
-                    check_slider(&lk, &rep, piece, sq, on | fill);
-                    check_slider(&lk, &rep, Piece::Queen, sq, on | fill);
+                    check_slider(tl_lk(), &rep, piece, sq, on | fill);
+                    check_slider(tl_lk(), &rep, Piece::Queen, sq, on | fill);
                     evals += 2;
                 }
             }
